@@ -52,6 +52,11 @@ _event = st.one_of(
     st.fixed_dictionaries({"cls": st.just("TypedStop"), "typed": st.fixed_dictionaries({"code": st.integers(0, 99), "note": st.text(max_size=5)}), "dyn": _dyn, "result": _json}),
     st.fixed_dictionaries({"cls": st.just("AskEv"), "typed": st.fixed_dictionaries({"prompt": st.text(max_size=6)}), "dyn": _dyn}),
     st.fixed_dictionaries({"cls": st.just("AnswerEv"), "typed": st.fixed_dictionaries({"answer": st.text(max_size=6)}), "dyn": _dyn}),
+    # typed fields with aliases (camelCase on the wire)
+    st.fixed_dictionaries({"cls": st.just("AliasEv"), "typed": st.fixed_dictionaries({"step_label": st.text(max_size=6), "percent_done": st.integers(0, 100)}), "dyn": _dyn}),
+    st.fixed_dictionaries({"cls": st.just("AliasStop"), "typed": st.fixed_dictionaries({"total_count": st.integers(0, 99)}), "dyn": _dyn, "result": _json}),
+    st.fixed_dictionaries({"cls": st.just("NestedAliasEv"), "typed": st.fixed_dictionaries({"inner": st.fixed_dictionaries({"item_count": st.integers(0, 9)})}), "dyn": st.just({})}),
+    st.fixed_dictionaries({"cls": st.just("StrictNestedAliasEv"), "typed": st.fixed_dictionaries({"inner": st.fixed_dictionaries({"item_count": st.integers(0, 9)})}), "dyn": st.just({})}),
 )
 _exc = st.fixed_dictionaries({"type": st.sampled_from(["ValueError", "RuntimeError", "KeyError", "TimeoutError", "HarnessError", "Exception", "ZeroDivisionError"]), "msg": st.text(max_size=12)})
 
@@ -115,6 +120,10 @@ class C18(Prop):
             typed["nested"] = self.pool.Inner.model_validate(typed["nested"])
             typed["when"] = datetime.fromtimestamp(typed["when"], tz=timezone.utc)
             typed["color"] = self.pool.Color(typed["color"])
+        if spec["cls"] == "NestedAliasEv":
+            typed["inner"] = self.pool.AliasInner(item_count=typed["inner"]["item_count"])
+        if spec["cls"] == "StrictNestedAliasEv":
+            typed["inner"] = self.pool.StrictAliasInner(itemCount=typed["inner"]["item_count"])
         later = {k: typed.pop(k) for k in spec.get("in_place", []) if k in typed}
         kw = {**typed, **spec["dyn"]}
         if "result" in spec:
@@ -144,7 +153,8 @@ class C18(Prop):
         db = {k: getattr(b, k) for k in type(b).model_fields}
         if da != db:
             bad = [k for k in da if da[k] != db.get(k)]
-            r.v("typed_fields_changed", where=where, cls=type(a).__name__, fields=bad[:3])
+            r.v("typed_fields_changed", where=where, cls=type(a).__name__, fields=bad[:3],
+                nested_model_alias_without_populate_by_name=type(a).__name__ == "StrictNestedAliasEv" and bad == ["inner"])
         if dict(a._data) != dict(b._data):
             r.v("dynamic_fields_changed", where=where, cls=type(a).__name__)
         if isinstance(a, self.wev.StopEvent) and a.result != b.result:
